@@ -220,6 +220,8 @@ def encrypt_json(
             key = guess_key(public_key, recipient, True)
             key.check_use("enc")
             recipient.recipient_key = key
+        else:
+            recipient.recipient_key.check_use("enc")
 
     perform_encrypt(obj, registry)
     if isinstance(obj, GeneralJSONEncryption):
